@@ -12,6 +12,7 @@ import (
 	"flag"
 	"fmt"
 	"os"
+	"runtime"
 	"strings"
 	"sync"
 	"time"
@@ -213,6 +214,132 @@ func run(w *world, v *vec, o *out) {
 	}
 }
 
+// gatedWriter is the server's reply transport: while closed, Write blocks (a slow client).
+type gatedWriter struct {
+	w    interface{ Write([]byte) (int, error) }
+	mu   sync.Mutex
+	open chan struct{}
+}
+
+func (g *gatedWriter) Write(b []byte) (int, error) {
+	g.mu.Lock()
+	ch := g.open
+	g.mu.Unlock()
+	<-ch
+	return g.w.Write(b)
+}
+func (g *gatedWriter) Close() error { return nil }
+func (g *gatedWriter) stall()       { g.mu.Lock(); g.open = make(chan struct{}); g.mu.Unlock() }
+func (g *gatedWriter) release()     { g.mu.Lock(); close(g.open); g.mu.Unlock() }
+
+// inflight forces the schedule of spec/ReadBuf.tla in which every Tread of a batch has been
+// handled (buffer taken, filled by the backend, reply queued) before any reply is written:
+// the reply transport is stalled, the reads are delivered one after the other, then the
+// transport is released.  Every Rread must carry exactly the bytes the backend produced for
+// its own request (ReplyIsOwn).  One scheduler thread, so that the buffer pool recycles
+// deterministically.
+func inflight(t *wirecodec.Table, o *out, batches [][]int) {
+	old := runtime.GOMAXPROCS(1)
+	defer runtime.GOMAXPROCS(old)
+	auto := puppet.NewAuto()
+	defer auto.Stop()
+	var mu sync.Mutex
+	answered := 0
+	auto.Answer = func(c *puppet.Call) (puppet.Result, bool) {
+		if c.K != "ReadAt" {
+			return puppet.Result{}, false
+		}
+		off := c.Args["offset"].(int64)
+		for i := range c.Buf {
+			c.Buf[i] = byte(off>>12) + 1
+		}
+		mu.Lock()
+		answered++
+		mu.Unlock()
+		return puppet.Result{Res: "ok", N: len(c.Buf)}, true
+	}
+	srv := p9.NewServer(&puppet.Attacher{C: auto.C})
+	raw := peer.NewRaw(t)
+	r, wr := raw.ServerEnds()
+	gw := &gatedWriter{w: wr, open: make(chan struct{})}
+	gw.release()
+	go srv.Handle(r, gw)
+	nouid := uint64(0xFFFFFFFF)
+	tag := uint16(0)
+	rpc := func(name string, v wirecodec.Values) bool {
+		tag++
+		raw.Send(name, tag, v)
+		b, ok, to := raw.FR.Next(5 * time.Second)
+		if to || !ok {
+			return false
+		}
+		f, err := t.Decode(b)
+		return err == nil && f.Name != "Rlerror"
+	}
+	if !rpc("Tversion", wirecodec.Values{"msize": 65536, "version": "9P2000.L.Google.7"}) ||
+		!rpc("Tattach", wirecodec.Values{"fid": 1, "afid": nouid, "uname": "", "aname": "", "n_uname": nouid}) ||
+		!rpc("Twalk", wirecodec.Values{"fid": 1, "newfid": 3, "names": []string{"f1"}}) ||
+		!rpc("Tlopen", wirecodec.Values{"fid": 3, "flags": 2}) {
+		o.Findings = append(o.Findings, "in-flight reads: setup failed")
+		return
+	}
+	for bi, lens := range batches {
+		o.Cases++
+		gw.stall()
+		want := map[uint16][]byte{}
+		for i, n := range lens {
+			tag++
+			off := int64(bi*16+i+1) << 12
+			want[tag] = make([]byte, n)
+			for k := range want[tag] {
+				want[tag][k] = byte(off>>12) + 1
+			}
+			mu.Lock()
+			before := answered
+			mu.Unlock()
+			raw.Send("Tread", tag, wirecodec.Values{"fid": 3, "offset": uint64(off), "count": n})
+			o.Requests++
+			// wait until the backend has produced this request's bytes and the handler had time to return
+			for d := time.Now().Add(3 * time.Second); time.Now().Before(d); {
+				mu.Lock()
+				a := answered
+				mu.Unlock()
+				if a > before || n == 0 {
+					break
+				}
+				time.Sleep(200 * time.Microsecond)
+			}
+			time.Sleep(2 * time.Millisecond)
+		}
+		gw.release()
+		for range lens {
+			b, ok, to := raw.FR.Next(5 * time.Second)
+			if to || !ok {
+				o.Findings = append(o.Findings, fmt.Sprintf("in-flight reads %v: a reply is missing", lens))
+				return
+			}
+			f, err := t.Decode(b)
+			if err != nil || f.Name != "Rread" {
+				o.Findings = append(o.Findings, fmt.Sprintf("in-flight reads %v: unexpected reply %v %v", lens, f, err))
+				return
+			}
+			got, _ := f.V["data"].([]byte)
+			if string(got) != string(want[f.Tag]) {
+				o.Findings = append(o.Findings, fmt.Sprintf("in-flight reads with lengths %v, all handled before any reply was written: the Rread of tag %d carries %d bytes starting %x, the backend produced %d bytes of %x for it (ReadBuf.tla ReplyIsOwn)",
+					lens, f.Tag, len(got), head(got), len(want[f.Tag]), head(want[f.Tag])))
+				return
+			}
+		}
+	}
+}
+
+func head(b []byte) []byte {
+	if len(b) > 4 {
+		return b[:4]
+	}
+	return b
+}
+
 func main() {
 	in := flag.String("in", "", "")
 	outp := flag.String("out", "", "")
@@ -254,6 +381,9 @@ func main() {
 		if len(o.Findings) > 25 {
 			break
 		}
+	}
+	if *shard == 0 {
+		inflight(t, o, [][]int{{100, 100}, {4096, 10, 4096}, {10, 4096, 10, 0, 7}, {1, 1, 1, 1}, {60000, 60000}, {3, 60000, 3}})
 	}
 	b, _ := json.Marshal(o)
 	if *outp == "" {
